@@ -9,6 +9,7 @@ import (
 	"math/rand"
 	"os"
 	"path/filepath"
+	"runtime"
 	"runtime/debug"
 	"sort"
 	"strconv"
@@ -224,16 +225,17 @@ func (h *hist) after(full bool) {
 	kind := h.lastKind
 	q := h.fq.Queue()
 	app, qa := q.AppendedSeq(), q.AcknowledgedSeq()
+	reset := kind == "set-appended" || kind == "consume-wait-set-appended"
 
 	// --- queue-wide acknowledged position ---
-	if qa < h.prevQack && kind != "set-appended" {
+	if qa < h.prevQack && !reset {
 		h.violate("C06/queue-ack/moved-backwards/"+kind, "queue ack went from %d to %d", h.prevQack, qa)
 	}
 	if qa > app {
 		h.violate("C06/queue-ack/beyond-appended/"+kind, "queue ack %d > appended %d", qa, app)
 	}
 	groups := h.existing()
-	if qa != h.prevQack && kind != "set-appended" {
+	if qa != h.prevQack && !reset {
 		h.res.count("queue_ack_moves_observed", 1)
 		for _, g := range groups {
 			if a := g.h.AcknowledgedSeq(); qa > a {
@@ -445,19 +447,56 @@ func (h *hist) opConsumeWait(g *mGroup, how string) {
 		}()
 		ch <- handle.Consume()
 	}()
-	time.Sleep(time.Duration(200+h.rnd.Intn(1500)) * time.Microsecond) // workload shaping only
+	// the consumer must be parked inside Queue.NotEmpty (registered on the condition, lock released) before the
+	// other goroutine acts: decided on the goroutine's state, not on elapsed time
+	if waitParkedInNotEmpty(1, 10*time.Second) {
+		h.res.count("consumer_parked_in_consume_before_action", 1)
+	} else {
+		h.res.count("consumer_not_seen_parked_before_action", 1)
+	}
 	want := queue.SeqNoNewMessageAvailable
-	switch how {
-	case "put":
+	put := func() bool {
 		id := h.nextID
 		h.nextID++
 		n := 16 + h.rnd.Intn(200)
 		if err := h.fq.Queue().Put(makePayload(id, n)); err != nil {
 			h.fail("C06/put-failed", "Put: %v", err)
-			return
+			return false
 		}
 		h.appended++
 		h.msgs[h.appended] = msgInfo{id, n}
+		return true
+	}
+	switch how {
+	case "set-consumed":
+		// another goroutine rewinds the group (in range) while its consumer is parked at consumed+1; the next
+		// append wakes the consumer, which must hand out s+1
+		s := g.consumed
+		if g.ack < g.consumed {
+			s = g.ack + h.rnd.Int63n(g.consumed-g.ack)
+		}
+		h.trace[len(h.trace)-1] += fmt.Sprintf(": SetConsumedSeq(%d) while parked at %d, then put", s, g.consumed+1)
+		g.h.SetConsumedSeq(s)
+		g.consumed = s
+		if !put() {
+			return
+		}
+		want = g.consumed + 1
+	case "set-appended":
+		// the explicit index reset (forward) from another goroutine while the consumer is parked: every group is at
+		// n afterwards; the next append wakes the consumer, which must hand out n+1
+		n := h.appended + 1 + h.rnd.Int63n(3)
+		h.trace[len(h.trace)-1] += fmt.Sprintf(": SetAppendedSeq(%d) while parked at %d, then put", n, g.consumed+1)
+		h.fq.SetAppendedSeq(n)
+		h.applySetAppended(n)
+		if !put() {
+			return
+		}
+		want = g.consumed + 1
+	case "put":
+		if !put() {
+			return
+		}
 		want = g.consumed + 1
 	case "stop":
 		h.fq.StopConsumerGroup(g.name)
@@ -488,11 +527,20 @@ func (h *hist) opConsumeWait(g *mGroup, how string) {
 			return
 		}
 	}
+	moved := how == "set-consumed" || how == "set-appended"
 	if got != want {
+		if moved {
+			// report the hand-out, then let the invariants speak from the getters (ack <= consumed, readability)
+			h.violate("C06/consume/not-consecutive/position-moved-while-parked/"+how, "group %s: Consume() parked before the move returned %d, expected %d (consumed %d ack %d appended %d)", g.name, got, want, g.consumed, g.ack, h.appended)
+			g.consumed = want
+			h.after(true)
+			h.failed = true
+			return
+		}
 		h.fail("C06/consume/not-consecutive/woken-by-"+how, "group %s: blocked Consume() returned %d, expected %d (consumed %d)", g.name, got, want, g.consumed)
 		return
 	}
-	if how == "put" {
+	if how == "put" || moved {
 		g.consumed = want
 	}
 	h.res.count("op.consume-wait."+how, 1)
@@ -500,7 +548,33 @@ func (h *hist) opConsumeWait(g *mGroup, how string) {
 		h.reopenAfterClose()
 		return
 	}
-	h.after(false)
+	h.after(moved)
+}
+
+// waitParkedInNotEmpty waits until n goroutines are parked in sync.Cond.Wait below queue.NotEmpty.
+func waitParkedInNotEmpty(n int, limit time.Duration) bool {
+	deadline := time.Now().Add(limit)
+	buf := make([]byte, 1<<20)
+	for {
+		k := runtime.Stack(buf, true)
+		cnt := 0
+		for _, g := range strings.Split(string(buf[:k]), "\n\n") {
+			nl := strings.IndexByte(g, '\n')
+			if nl < 0 {
+				continue
+			}
+			if strings.Contains(g[:nl], "sync.Cond.Wait") && strings.Contains(g, "pkg/queue.(*queue).NotEmpty") {
+				cnt++
+			}
+		}
+		if cnt >= n {
+			return true
+		}
+		if time.Now().After(deadline) {
+			return false
+		}
+		time.Sleep(50 * time.Microsecond)
+	}
 }
 
 func (h *hist) opAck(g *mGroup, s int64, flavour string) {
@@ -775,7 +849,13 @@ func (h *hist) opPause(g *mGroup) {
 func (h *hist) opSetAppended(s int64) {
 	h.begin("set-appended", fmt.Sprintf("set-appended %d (appended %d, queue ack %d)", s, h.appended, h.qack))
 	h.fq.SetAppendedSeq(s)
-	// the explicit index reset: appended = queue ack = s, every open group consumed = ack = s
+	h.applySetAppended(s)
+	h.res.count("op.set-appended", 1)
+	h.after(true)
+}
+
+// applySetAppended: the explicit index reset: appended = queue ack = s, every open group consumed = ack = s.
+func (h *hist) applySetAppended(s int64) {
 	h.appended, h.qack = s, s
 	for seq := range h.msgs {
 		if seq > s {
@@ -789,8 +869,6 @@ func (h *hist) opSetAppended(s int64) {
 			g.resetWhileStopped = true
 		}
 	}
-	h.res.count("op.set-appended", 1)
-	h.after(true)
 }
 
 func (h *hist) opReopen() {
@@ -974,7 +1052,10 @@ func (h *hist) randomOp() {
 	}
 	if g := h.pickGroup(func(g *mGroup) bool { return !g.paused && g.consumed == h.appended }); g != nil {
 		add(3, func() {
-			how := []string{"put", "put", "put", "stop", "pause", "close"}[r.Intn(6)]
+			how := []string{"put", "put", "put", "stop", "pause", "close", "set-consumed", "set-consumed", "set-appended"}[r.Intn(9)]
+			if how == "set-consumed" && g.ack > g.consumed {
+				how = "put"
+			}
 			h.opConsumeWait(g, how)
 		})
 	}
@@ -1129,7 +1210,35 @@ func (h *hist) genDirected() {
 	}
 	k := 4 + r.Intn(12)
 	h.puts(k)
-	switch h.idx % 4 {
+	switch h.idx % 6 {
+	case 4, 5:
+		// the consumer of group 1 is parked in Consume on the drained queue while another goroutine moves the
+		// group: SetConsumedSeq back into [ack, consumed) (4) or a forward SetAppendedSeq (5); then an append
+		// wakes it. Afterwards: consume on, ack, sync, reopen.
+		h.drain(g1, h.appended, false)
+		if !h.failed && g1.consumed > 2 {
+			h.opAck(g1, g1.consumed-2-h.rnd.Int63n(g1.consumed-2), "valid")
+		}
+		h.drain(g2, h.appended, true)
+		if h.failed {
+			return
+		}
+		if h.idx%6 == 4 {
+			h.opConsumeWait(g1, "set-consumed")
+		} else {
+			h.opConsumeWait(g1, "set-appended")
+		}
+		if h.failed {
+			return
+		}
+		h.puts(1 + r.Intn(3))
+		h.drain(g1, h.appended, true)
+		if !h.failed {
+			h.opSync()
+		}
+		if !h.failed {
+			h.opReopen()
+		}
 	case 0, 1:
 		// a group is stopped, the others go on, Sync moves the queue ack beyond the stopped group's ack,
 		// then the stopped group comes back through reopen (0) or GetOrCreateConsumerGroup (1)
@@ -1145,7 +1254,7 @@ func (h *hist) genDirected() {
 		if r.Intn(2) == 0 {
 			h.opGC()
 		}
-		if h.idx%4 == 0 {
+		if h.idx%6 == 0 {
 			h.opReopen()
 		} else {
 			h.opCreate("2")
